@@ -24,6 +24,61 @@ func gen(r *vh.Rand, tier string, n int, emit func(vh.Case)) {
 			steps = r.Range(6, 90)
 		}
 		lockScenario := r.Chance(1, 6) // File.Mode / ModTime vs SetMode around the schedule point
+		orderScenario := !lockScenario && r.Chance(1, 5)
+		if orderScenario {
+			// lock ORDER between a file's node lock and the directory locks of its ancestors: SetMode / SetModTime
+			// (bottom-up: file, then /d, then /) paused between the levels, against listings and GetNode chains
+			// (top-down: /, /d, file) started meanwhile; and a SetMode started from inside a ForEachEntry callback.
+			chW := -1
+			for k := 0; k < steps; k++ {
+				w := r.Intn(nWorkers)
+				f := r.Intn(3)
+				if r.Chance(2, 3) {
+					f = r.Intn(2) // files of /d: two directory levels above them
+				}
+				mode := vh.Pick(r, []string{"644", "600", "755", "700"})
+				var op string
+				switch x := r.Intn(100); {
+				case chW >= 0 && x < 35:
+					other := (chW + 1 + r.Intn(nWorkers-1)) % nWorkers
+					op = vh.Pick(r, []string{fmt.Sprintf("rootcat %d %d", other, f), fmt.Sprintf("ls %d", other), fmt.Sprintf("cat %d %d", other, f), fmt.Sprintf("rootcat %d %d", other, r.Intn(3))})
+				case chW >= 0 && x < 75:
+					pk := vh.Pick(r, []string{"-", "-", "l"})
+					op = fmt.Sprintf("resume %d %s", chW, pk)
+					if pk == "-" || r.Bool() {
+						chW = -1
+					}
+				case x < 30:
+					op = fmt.Sprintf("chmod %d %d %s l", w, f, mode)
+					if chW < 0 {
+						chW = w
+					}
+				case x < 50:
+					op = fmt.Sprintf("lschmod %d %d %s", w, vh.Pick(r, []int{1, 1, 0, 2}), mode)
+				case x < 60:
+					op = fmt.Sprintf("chmod %d %d %s", w, f, mode)
+				case x < 70:
+					op = fmt.Sprintf("ls %d", w)
+				case x < 80:
+					op = fmt.Sprintf("rootcat %d %d", w, f)
+				case x < 88:
+					op = fmt.Sprintf("mode %d %d -", w, f)
+				case x < 94:
+					op = fmt.Sprintf("pubcat %d", f)
+				default:
+					op = fmt.Sprintf("cat %d %d", w, f)
+				}
+				c.Ops = append(c.Ops, op)
+			}
+			for w := 0; w < nWorkers; w++ {
+				c.Ops = append(c.Ops, fmt.Sprintf("resume %d -", w), fmt.Sprintf("resume %d -", w))
+			}
+			for f := 0; f < 3; f++ {
+				c.Ops = append(c.Ops, fmt.Sprintf("mode 0 %d -", f), fmt.Sprintf("pubcat %d", f), fmt.Sprintf("rootcat 1 %d", f))
+			}
+			emit(c)
+			continue
+		}
 		val := 0
 		for k := 0; k < steps; k++ {
 			w := r.Intn(nWorkers)
